@@ -11,10 +11,11 @@ READY = True
 STATEFUL = True
 THEOREMS = [
     "C14.resolve_spec", "C14.resolve_entries", "C14.resolve_fn", "C14.final_set", "C14.closed_form",
-    "C14.same_set_same_colors",
-    "C14.order_indep", "C14.explicit_wins", "C14.first_registration_wins", "C14.Dangling.not_resolvable",
-    "C14.unknown_then_known", "C14.nocolor", "C14.cache_fresh", "C14.no_error", "C14.no_error_add",
+    "C14.same_set_same_colors", "C14.order_indep", "C14.explicit_wins", "C14.first_registration_wins",
+    "C14.Dangling.not_resolvable", "C14.unknown_then_known", "C14.palette_twice", "C14.palette_after_palette",
+    "C14.palette_unchanged", "C14.nocolor", "C14.cache_fresh", "C14.no_error", "C14.no_error_add",
     "C14.parsed_colors_accepted", "C14.global_off_same", "C14.resolve_spec_global", "C14.synced_fresh",
+    "C14.no_error_global", "C14.no_error_pal", "C14.setGlobal_reentrant_raises",
 ]
 
 
@@ -770,8 +771,8 @@ def oracle(case, replies):
 
 
 # ------------------------------------------------------------------ generators
-_COLS = ["RED", "GREEN", "BLUE", "YELLOW", "BLACK", "WHITE", "CYAN", "MAGENTA", "12", "0", "255", "(1,2,3)", "(5,0,5)",
-         "g0", "g5", "g23", "", "-", "-"]
+_COLS = ["RED", "GREEN", "BLUE", "YELLOW", "BLACK", "WHITE", "CYAN", "MAGENTA", "12", "0", "0", "255", "(1,2,3)", "(5,0,5)",
+         "(0,0,0)", "g0", "g5", "g23", "", "-", "-"]
 _MODS = ["bold", "no_bold", "underline", "no_underline", "blink", "no_blink", "crossed", "no_crossed", "faint", "no_faint"]
 _BUILTIN_IDS = ["TEXT", "NAME", "KEYWORD", "NUMBER", "OK", "WARN", "ERROR"]
 
@@ -804,9 +805,15 @@ def _gen_set(rng, tier):
             ids.append("S%d" % i)
         elif r < 0.75:
             ids.append("G%d.X%d" % (rng.randrange(2), i))
-        elif r < 0.85:
+        elif r < 0.80:
             ids.append("G0.H.Y%d" % i)
+        elif r < 0.85:
+            ids.append("D%d.E.F.Y%d" % (rng.randrange(2), i))       # nesting depth 3
+        elif r < 0.89:
+            ids.append("D0.E.F.G.Y%d" % i)                          # nesting depth 4
         elif r < 0.93:
+            ids.append("D0.E.F.G.H%d.Y" % (i % 2))                  # nesting depth 5
+        elif r < 0.96:
             ids.append(rng.choice(_BUILTIN_IDS))
         else:
             ids.append("T%d" % i)
@@ -1225,9 +1232,45 @@ def tags(case, replies):
         yield "no_color"
     if any(r.startswith("ok") and ":U" in r for l, r in zip(case["lines"], replies) if l == "ids"):
         yield "unresolved-at-end"
-    if any(":-" in dec_str(t[2:]) or "-/" in dec_str(t[2:]) or "/-" in dec_str(t[2:])
-           for l in case["lines"] for t in l.split() if t.startswith("s:") and t != "s:-"):
+    descrs = [dec_str(t[2:]) for l in case["lines"] for t in l.split() if t.startswith("s:") and t != "s:-"]
+    if any(":-" in d or "-/" in d or "/-" in d for d in descrs):
         yield "dash-in-description"
+    # falsy colour values (int 0, 'g0', (0,0,0)) in a description that also has a parent
+    for d in descrs:
+        secs = d.split(":")
+        if len(secs) >= 2 and _O_ID.match(secs[0]) and secs[0] not in _O_NAMES:
+            cols = secs[1].split("/")
+            if any(c in ("0", "g0", "(0,0,0)") for c in cols):
+                yield "falsy-colour-with-parent"
+                break
+    depth = 0
+    for l in case["lines"]:
+        cur = 0
+        for t in l.split():
+            if t == "(":
+                cur += 1
+                depth = max(depth, cur)
+            elif t == ")":
+                cur -= 1
+    if depth >= 2:
+        yield "nested-dict-depth:%d" % (depth - 1 if depth <= 6 else 6)
+    lines = case["lines"]
+    seen = {}
+    for l, r in zip(lines, replies):
+        if l.startswith("pal ") and l.endswith(" 0") and r.startswith("ok"):
+            if l in seen and seen[l] != r:
+                yield "palette-obtained-twice:changed"
+                break
+            if l in seen:
+                yield "palette-obtained-twice:same"
+                break
+            seen[l] = r
+    if "glob" in lines:
+        first = lines.index("glob")
+        pre = len(set(l for l in lines[:first] if l.startswith("syn ")))
+        yield "synced-before-glob:%s" % (pre if pre < 2 else ">=2")
+        if any(r == "err AssertionError" for l, r in zip(lines, replies) if l == "glob"):
+            yield "glob-reentrant-assert"
 
 
 RULE = ("acyclic description sets of 1-6 (thorough: 2-8) ids, chains of depth <= 4 through own, built-in and unknown ids, flat and "
@@ -1247,22 +1290,28 @@ LEVEL_TEXT = ("Kernel-checked for every history (any split of the descriptions b
               "set of descriptions determines through the declarative relation Resolves (own parts override, '' inherits through "
               "the whole chain, '-' = terminal default, chain through an unknown or pending id = uncoloured, unknown id = default "
               "syntax) [resolve_spec, resolve_entries, resolve_fn, resolve_spec_global, closed_form: first non-empty colour slot "
-              "along the chain]; the final set is first-registration-wins "
-              "over explicit configuration, built-ins, later registrations [final_set, explicit_wins, first_registration_wins]; "
-              "permuting / re-batching registrations of distinct ids changes no formatter [order_indep, same_set_same_colors]; "
-              "uncoloured until the chain is complete, then fixed for ever [unknown_then_known]; no_color configurations and "
-              "no_color palettes are effect-free [nocolor]; a palette obtained at any time equals get_color of its syntax ids in "
-              "the current state, cached or not [cache_fresh]; synced palettes of the global configuration show the current "
-              "formatters after every registration, nested re-syncs included [synced_fresh]; histories without palette creation "
-              "over valid descriptions with an acyclic final set never raise and never exhaust the model's fuel [no_error, "
-              "no_error_add, parsed_colors_accepted]. Model = code (parser, ColorFmt prefix, resolution loop, caches, make_report, "
-              "global re-sync) is established by the differential run only.")
+              "along the chain]; the final set is first-registration-wins over explicit configuration, built-ins, later "
+              "registrations [final_set, explicit_wins, first_registration_wins]; permuting / re-batching registrations of distinct "
+              "ids changes no formatter [order_indep, same_set_same_colors]; uncoloured until the chain is complete, then fixed for "
+              "ever [unknown_then_known]; a palette obtained twice differs in an accessor only if its id was not settled the first "
+              "time, and for a described id with an incomplete chain exactly when the registrations in between complete the chain "
+              "to a visible effect [palette_twice, palette_after_palette, palette_unchanged: C10's late_resolution characterised]; "
+              "no_color configurations and no_color palettes are effect-free [nocolor]; a palette obtained at any time equals "
+              "get_color of its syntax ids in the current state, cached or not [cache_fresh]; synced palettes of the global "
+              "configuration show the current formatters after every registration, nested re-syncs included [synced_fresh]. "
+              "No exception and no fuel exhaustion on an explicit decidable domain: valid descriptions with an acyclic final set "
+              "for histories without palettes [no_error, no_error_add, parsed_colors_accepted]; with palette classes, the global "
+              "configuration and synced palettes when the class table is well-founded, all offered descriptions are valid with an "
+              "acyclic union of references, and no class with defaults below a synced class has an ancestor with defaults "
+              "[no_error_global, no_error_pal; Ctx/OpsOK, computable test ctxb]; outside that domain the re-entrant registration "
+              "provably never returns normally [setGlobal_reentrant_raises]. Model = code (parser, ColorFmt prefix, resolution "
+              "loop, caches, make_report, global re-sync) is established by the differential run only.")
 LEVEL_NOTE = ("Trusted: Lean kernel (axioms propext, Classical.choice, Quot.sound), translator and adapter in harness/c14.py, sampled "
-              "correspondence. Not proved: absence of exceptions for histories that create palettes or use the global configuration "
-              "(theorems are conditional on the history returning normally there; exercised by the palette and global streams; the "
-              "re-entrant registration that makes set_global_colors_config raise AssertionError is reproduced by the model and "
-              "reported, see SYNCED_PARENT_FINDING). One configuration per case: a second configuration appears only as 'another "
-              "global configuration' whose colours are never read. Tables (_COLORS, _COLORS_NAMES, _MODIFIERS, effect codes, "
-              "BUILT_IN_CONFIG, DFLT_SYNTAX_ID) are regenerated from the source on every run; thresholds 255 / 5 / 24 are fixed in "
-              "the model and probed at their boundaries by the odd-description stream.")
+              "correspondence. Not proved: an exact iff for set_global_colors_config raising (proved: never on the SyncSafe domain, "
+              "always for the direct shape 'first synced class K with defaults, single parent P with defaults offering a new id'; "
+              "in between the outcome depends on the order in which the nested re-syncs meet the classes; the model reproduces the "
+              "AssertionError and the oracle does not judge that shape, see SYNCED_PARENT_FINDING). One configuration per case: a "
+              "second configuration appears only as 'another global configuration' whose colours are never read. Tables (_COLORS, "
+              "_COLORS_NAMES, _MODIFIERS, effect codes, BUILT_IN_CONFIG, DFLT_SYNTAX_ID) are regenerated from the source on every "
+              "run; thresholds 255 / 5 / 24 are fixed in the model and probed at their boundaries by the odd-description stream.")
 TECHNIQUE = "Lean 4 theorems (invariant of the incremental resolution loop) + translator for the tables + correspondence check"
